@@ -792,6 +792,12 @@ class Dict(dict, base.Symbolic, pg_typing.CustomTyping):
     if isinstance(value, base.TopologyAware):
       value.sym_setparent(None)
       value.sym_setpath(utils.KeyPath())
+    if flags.is_change_notification_enabled():
+      self._notify_field_updates([
+          base.FieldUpdate(
+              utils.KeyPath(key, self.sym_path), self, None,
+              value, pg_typing.MISSING_VALUE)
+      ])
     return key, value
 
   def clear(self) -> None:
@@ -806,7 +812,10 @@ class Dict(dict, base.Symbolic, pg_typing.CustomTyping):
 
     if value_spec:
       try:
-        self.use_value_spec(value_spec, self._allow_partial)
+        # NOTE: the defaults are re-applied silently, one change event for the
+        # whole call is delivered below.
+        with flags.notify_on_change(False):
+          self.use_value_spec(value_spec, self._allow_partial)
       except BaseException:
         # The cleared dict is rejected by the value spec (e.g. required keys):
         # restore the previous content.
@@ -821,6 +830,21 @@ class Dict(dict, base.Symbolic, pg_typing.CustomTyping):
       if isinstance(old_value, base.TopologyAware):
         old_value.sym_setparent(None)
         old_value.sym_setpath(utils.KeyPath())
+
+    if flags.is_change_notification_enabled():
+      updates = []
+      old_values = dict(old_items)
+      new_values = dict(self.sym_items())
+      for k in list(old_values.keys()) + [
+          k for k in new_values if k not in old_values]:
+        old_value = old_values.get(k, pg_typing.MISSING_VALUE)
+        new_value = new_values.get(k, pg_typing.MISSING_VALUE)
+        if old_value is not new_value:
+          updates.append(base.FieldUpdate(
+              utils.KeyPath(k, self.sym_path), self, self.sym_attr_field(k),
+              old_value, new_value))
+      if updates:
+        self._notify_field_updates(updates)
 
   def setdefault(self, key: Union[str, int], default: Any = None) -> Any:
     """Sets default as the value to key if not present."""
